@@ -203,8 +203,9 @@ impl Iterator for BitBoardIter {
     #[cfg(target_feature = "bmi2")]
     #[cfg(any(target_arch = "x86", target_arch = "x86_64"))]
     fn nth(&mut self, n: usize) -> Option<Self::Item> {
-        let x = unsafe { core::arch::x86_64::_pdep_u64(1 << n, self.0.to_u64()) }.trailing_zeros()
-            as u8;
+        // no set has a 65th element: `1 << n` would overflow
+        let bit = if n < 64 { 1 << n } else { 0 };
+        let x = unsafe { core::arch::x86_64::_pdep_u64(bit, self.0.to_u64()) }.trailing_zeros() as u8;
         let pos = Pos::from_u8(x)?;
         let mask = ((1u128 << (1 + pos as u32)) - 1) as u64;
         self.0 -= BitBoard::from(mask);
